@@ -73,8 +73,30 @@ def check_collapse(inp, out, out2, inp_after):
         li, lo = leaves(inp), leaves(out)
         if [l for _, l in li] != [l for _, l in lo]:
             return "leaves lost, duplicated or reordered"
+        # every single join is between an element and a later one whose names include the earlier one's tag, attributes
+        # identical; a leaf may pass through several joins (its `ol` parent joins an earlier `ol|ul`, which joins an
+        # earlier `ul`), so its final ancestor is related to its original one by a CHAIN of such joins
+        # (Proofs/HtmlCollapseSpec.v: match_star) over the tags of the input
+        tags = set()
+
+        def collect(forest):
+            for n in forest:
+                if "tag" in n:
+                    tags.add((tuple(n["tag"]), tuple(sorted(n["attrs"].items()))))
+                    collect(n["children"])
+        collect(inp)
+        reach = {}
+        for start in tags:
+            seen, todo = {start}, [start]
+            while todo:
+                l = todo.pop()
+                for n2 in tags:
+                    if n2 not in seen and l[0][0] in n2[0] and l[1] == n2[1]:
+                        seen.add(n2)
+                        todo.append(n2)
+            reach[start] = seen
         for (ci, _), (co, _) in zip(li, lo):
-            if len(ci) != len(co) or any(o[0][0] not in i[0] or o[1] != i[1] for i, o in zip(ci, co)):
+            if len(ci) != len(co) or any(o not in reach or i not in reach[o] for i, o in zip(ci, co)):
                 return "a leaf ended up under elements with different tags or attributes"
     return None
 
